@@ -225,11 +225,18 @@ def run(chk, prog):
                             if dd.get("decl") == d["decl"] and "init" in dd:
                                 calls = [y for y in A.walk(dd["init"]) if y.get("k") == "CXXMemberCallExpr" and (y.get("callee") or "").startswith("vfps::")]
             if not calls and d is not None:
-                # a local buffer packed from the accessor: copy_n(<accessor expr>, n, <buffer expr>)
-                for y in A.walk(f["body"]):
-                    if y.get("k") == "CallExpr" and y.get("callee") == "std::copy_n" and len(y.get("args", [])) == 3 and \
-                            any(z["k"] == "DeclRefExpr" and z["decl"] == d["decl"] for z in A.walk(y["args"][2])):
-                        calls = [z for z in A.walk(y["args"][0]) if z.get("k") == "CXXMemberCallExpr" and (z.get("callee") or "").startswith("vfps::")]
+                # a local buffer packed from the accessor: copy_n(<accessor expr>, n, <buffer expr>), or the copy loop that means the same
+                from .. import indexmap as I_
+                fs_ = I_.scan(f)
+                for cp_ in I_.copies(fs_):
+                    if any(str(z_) == d["name"] for z_ in cp_["dst"].free_symbols):
+                        # the pointer term of the source: an accessor call standing alone as a summand (offsets are products)
+                        terms_ = sp.Add.make_args(sp.expand(cp_["src"]))
+                        fnames = {str(z_.func) for z_ in terms_ if z_.is_Function}
+                        calls = [c_.node for c_ in fs_.calls if c_.node.get("k") == "CXXMemberCallExpr" and (c_.callee or "").startswith("vfps::") and
+                                 "HDF5File" not in c_.callee and c_.callee.split("::")[-1] in fnames]
+                        if calls:
+                            break
             got = None
             if calls:
                 c = calls[0]
@@ -403,29 +410,59 @@ def run(chk, prog):
             chk.check(UNIT_AXIS.get(unit) == k_, "R3", hc.where, "scale '%s' is taken from axis %s (local %s)" % (unit, UNIT_AXIS.get(unit), nm),
                       "HDF5File:ctor:scale:%s:axis:%s" % (unit, k_))
     per_ds = {}
+    # write sites: written out in the constructor, or inside a local helper lambda called with (dataset, unit, value) - then the
+    # lambda's parameters stand for the arguments of each call
+    lambdas_ = {}
+    lam_ids = set()
+    for st in A.walk(body):
+        if st["k"] == "DeclStmt":
+            for d in st["decls"]:
+                if d.get("k") == "VarDecl" and "init" in d:
+                    lm = [y for y in A.walk(d["init"]) if y.get("k") == "LambdaExpr" and y.get("body") is not None and y.get("params") is not None]
+                    if lm:
+                        lambdas_[d["decl"]] = lm[0]
+                        lam_ids |= {y["id"] for y in A.walk(lm[0]["body"])}
+
+    def walk_s(node, mapping):
+        for y in A.walk(node):
+            if y.get("k") == "DeclRefExpr" and y.get("decl") in mapping:
+                for z in A.walk(mapping[y["decl"]]):
+                    yield z
+            else:
+                yield y
+    write_sites = []
     for x in A.walk(body):
-        if x.get("k") == "CXXMemberCallExpr" and (x.get("callee") or "").split("::")[-1] == "write":
+        if x.get("k") == "CXXMemberCallExpr" and (x.get("callee") or "").split("::")[-1] == "write" and x["id"] not in lam_ids:
+            write_sites.append((x, {}, x))
+        if x.get("k") == "CXXOperatorCallExpr" and x.get("op") == "()" and x.get("args") and (A.declref(x["args"][0]) or {}).get("decl") in lambdas_:
+            lm = lambdas_[A.declref(x["args"][0])["decl"]]
+            mapping = {p_["decl"]: a_ for p_, a_ in zip(lm["params"], x["args"][1:])}
+            for y in A.walk(lm["body"]):
+                if y.get("k") == "CXXMemberCallExpr" and (y.get("callee") or "").split("::")[-1] == "write":
+                    write_sites.append((y, mapping, x))
+    for x, mapping, site_node in write_sites:
+        if True:
             # <member>.dataset.createAttribute("Unit",...).write(type, &local)   or   <member>.dataset.write(data, type)
             m_ = None
             unit = None
-            for y in A.walk(A.call_object(x)):
+            for y in walk_s(A.call_object(x), mapping):
                 f_ = A.this_field(y) if y.get("k") == "MemberExpr" else None
                 if f_ in ds:
                     m_ = f_
                 if y.get("k") == "CXXMemberCallExpr" and (y.get("callee") or "").endswith("createAttribute"):
-                    lit = [z for z in A.walk(y["args"][0]) if z["k"] == "StringLiteral"]
+                    lit = [z for z in walk_s(y["args"][0], mapping) if z["k"] == "StringLiteral"]
                     unit = lit[0]["value"] if lit else None
             if m_ is None:
                 continue
             axes = set()
             for a_ in x.get("args", []):
-                for y in A.walk(a_):
+                for y in walk_s(a_, mapping):
                     if y.get("callee") in ("vfps::PhaseSpace::getAxis", "vfps::PhaseSpace::getScale") and y.get("args"):
                         axes.add(A.strip(y["args"][0]).get("value"))
                     if y["k"] == "DeclRefExpr" and y["decl"] in loc_axis:
                         axes.add(loc_axis[y["decl"]][0])
             if axes:
-                per_ds.setdefault(m_, []).append((axes, unit, x))
+                per_ds.setdefault(m_, []).append((axes, unit, site_node))
     nax = 0
     for m_, uses in sorted(per_ds.items()):
         allax = set()
